@@ -167,6 +167,7 @@ type glTr struct {
 	fns     []*glFn
 	externs map[string]bool
 	externOut map[string]int
+	recvPath map[*ast.CallExpr][]string
 }
 
 type glFn struct {
@@ -509,10 +510,8 @@ func (t *glTr) writesThrough(fn *glFn, obj types.Object) bool {
 					en := name
 					if f, ok := s.Fun.(*ast.SelectorExpr); ok {
 						if sel, ok := t.p.info.Selections[f]; ok && sel.Kind() == types.MethodVal {
-							if rt := t.p.info.TypeOf(f.X); rt != nil {
-								if _, isIface := rt.Underlying().(*types.Interface); isIface {
-									en = rt.String() + "." + f.Sel.Name
-								}
+							if n := t.foreignMethodName(f); n != "" {
+								en = n
 							}
 						}
 					}
@@ -566,6 +565,10 @@ func (t *glTr) calleeOf(c *ast.CallExpr) (*glFn, []ast.Expr) {
 	case *ast.SelectorExpr:
 		if sel, ok := t.p.info.Selections[f]; ok && sel.Kind() == types.MethodVal {
 			if fn, ok := t.byObj[sel.Obj()]; ok {
+				if len(sel.Index()) > 1 {
+					// a method promoted through embedded fields: the receiver is x.E1.E2..., not x
+					t.notePromoted(c, f, sel)
+				}
 				return fn, append([]ast.Expr{f.X}, c.Args...)
 			}
 			// a method of an interface the group declares to be implemented by one translated type
@@ -581,6 +584,32 @@ func (t *glTr) calleeOf(c *ast.CallExpr) (*glFn, []ast.Expr) {
 		}
 	}
 	return nil, nil
+}
+
+// notePromoted records the embedded-field path between the written receiver and the method's real receiver
+func (t *glTr) notePromoted(c *ast.CallExpr, f *ast.SelectorExpr, sel *types.Selection) {
+	if t.recvPath == nil {
+		t.recvPath = map[*ast.CallExpr][]string{}
+	}
+	if _, done := t.recvPath[c]; done {
+		return
+	}
+	ty := t.p.info.TypeOf(f.X)
+	var path []string
+	idx := sel.Index()
+	for _, k := range idx[:len(idx)-1] {
+		if p, ok := ty.Underlying().(*types.Pointer); ok {
+			ty = p.Elem()
+		}
+		st, ok := ty.Underlying().(*types.Struct)
+		if !ok {
+			t.fail(c, "promoted method through %s", ty)
+		}
+		fld := st.Field(k)
+		path = append(path, fld.Name())
+		ty = fld.Type()
+	}
+	t.recvPath[c] = path
 }
 
 // ---------------------------------------------------------------- types
@@ -1064,7 +1093,16 @@ func (t *glTr) callStmt(c *glCtx, x *ast.CallExpr, lhs []string) (string, int) {
 			if full[i].isFunc {
 				continue
 			}
-			as = append(as, t.expr(c, a))
+			ae := t.expr(c, a)
+			if path := t.recvPath[x]; i == 0 && len(path) > 0 {
+				for _, fname := range path {
+					ae = fmt.Sprintf("EField (%s) %s", ae, glStr(fname))
+				}
+				if callee.isOut(pi) {
+					t.fail(x, "promoted method %s writes through its receiver", callee.spec.alias)
+				}
+			}
+			as = append(as, ae)
 			if callee.isOut(pi) {
 				outL = append(outL, t.lvalOf(c, a))
 			}
@@ -1138,14 +1176,43 @@ func (t *glTr) ifaceMethod(c *glCtx, x *ast.CallExpr) (string, string, bool) {
 	if rt == nil {
 		return "", "", false
 	}
-	if _, isIface := rt.Underlying().(*types.Interface); !isIface {
+	base := rt
+	if pt, ok := base.(*types.Pointer); ok {
+		base = pt.Elem()
+	}
+	_, isIface := rt.Underlying().(*types.Interface)
+	foreign := false
+	if nt, ok := base.(*types.Named); ok && nt.Obj().Pkg() != nil && nt.Obj().Pkg() != t.p.pkg {
+		foreign = true // a type of another package (its methods are not translated): e.g. *io.SectionReader
+	}
+	if !isIface && !foreign {
 		return "", "", false
 	}
-	name := rt.String() + "." + f.Sel.Name
+	name := base.String() + "." + f.Sel.Name
 	if ix, ok := f.X.(*ast.IndexExpr); ok {
 		return name, t.expr(c, ix.Index), true
 	}
 	return name, "", true
+}
+
+// foreignMethodName: "<type>.<method>" when f selects a method of an interface value or of a named type of another
+// package ("" otherwise)
+func (t *glTr) foreignMethodName(f *ast.SelectorExpr) string {
+	rt := t.p.info.TypeOf(f.X)
+	if rt == nil {
+		return ""
+	}
+	base := rt
+	if pt, ok := base.(*types.Pointer); ok {
+		base = pt.Elem()
+	}
+	if _, isIface := rt.Underlying().(*types.Interface); isIface {
+		return base.String() + "." + f.Sel.Name
+	}
+	if nt, ok := base.(*types.Named); ok && nt.Obj().Pkg() != nil && nt.Obj().Pkg() != t.p.pkg {
+		return base.String() + "." + f.Sel.Name
+	}
+	return ""
 }
 
 type glParam struct {
@@ -1252,6 +1319,24 @@ func (t *glTr) stmt(fn *glFn, s ast.Stmt) string {
 			printer.Fprint(&sb, t.p.fset, ret.Results[0])
 			return fmt.Sprintf("SCallExt [LVar %s] %s [EVar %s]", glStr(t.idName(fn, id)), glStr("sort.Slice: "+sb.String()), glStr(t.idName(fn, id)))
 		case name == "copy":
+			// copy(x.f[a:b], src): the field's slice through a temporary (value semantics: read the field, copy into
+			// it, store it back)
+			if sl, ok := call.Args[0].(*ast.SliceExpr); ok && !sl.Slice3 {
+				if fsel, ok := sl.X.(*ast.SelectorExpr); ok {
+					if sel, ok := t.p.info.Selections[fsel]; ok && sel.Kind() == types.FieldVal && len(sel.Index()) == 1 {
+						if id, ok := fsel.X.(*ast.Ident); ok && isIntSeq(t.p.info.TypeOf(sl.X)) {
+							tn := t.tmp(c)
+							src := t.expr(c, call.Args[1])
+							lo, hi := t.optExpr(c, sl.Low), t.optExpr(c, sl.High)
+							return t.withPre(c, glSeq([]string{
+								fmt.Sprintf("SAssign (LVar %s) (EField (EVar %s) %s)", glStr(tn), glStr(t.idName(fn, id)), glStr(fsel.Sel.Name)),
+								fmt.Sprintf("SCopy (LSlice %s %s %s) (%s)", glStr(tn), lo, hi, src),
+								fmt.Sprintf("SAssign (LField %s %s) (EVar %s)", glStr(t.idName(fn, id)), glStr(fsel.Sel.Name), glStr(tn)),
+							}))
+						}
+					}
+				}
+			}
 			return t.withPre(c, fmt.Sprintf("SCopy (%s) (%s)", t.lvalOf(c, call.Args[0]), t.expr(c, call.Args[1])))
 		case strings.HasPrefix(name, "binary.LittleEndian.PutUint"), strings.HasPrefix(name, "binary.BigEndian.PutUint"):
 			bits := name[strings.LastIndex(name, "PutUint")+7:]
@@ -1646,10 +1731,8 @@ func (t *glTr) isHoistedCall(c *glCtx, x *ast.CallExpr) bool {
 	}
 	if f, ok := x.Fun.(*ast.SelectorExpr); ok {
 		if sel, ok := t.p.info.Selections[f]; ok && sel.Kind() == types.MethodVal {
-			if rt := t.p.info.TypeOf(f.X); rt != nil {
-				if _, isIface := rt.Underlying().(*types.Interface); isIface && t.externs[rt.String()+"."+f.Sel.Name] {
-					return true
-				}
+			if n := t.foreignMethodName(f); n != "" && t.externs[n] {
+				return true
 			}
 		}
 	}
